@@ -60,13 +60,13 @@ Definition pongs (es : list effect) : list Z :=
 Definition stored (es : list effect) : bool :=
   existsb (fun e => match e with EStoreSalts n => n >? 0 | _ => false end) es.
 Definition status_code (s : status) : Z :=
-  match s with SOk => 0 | SErr HFuel => 3 | SErr HGz => 4 | SErr _ => 1 | SPanic => 2 end.
+  match s with SOk => 0 | SErr _ => 1 | SPanic => 2 end.
 
 Definition run (c : case) : hres :=
-  handle (gz_lookup (k_gz c))
+  fst (handle_message (gz_lookup (k_gz c))
          (fun id p => if zmem id (k_pending c) then out_ok p else true)
          msg_ok (fun _ => negb (k_sess_err c))
-         64 (length (k_data c)) (k_msg_id c) (k_data c).
+         (k_msg_id c) (k_data c)).
 
 Definition ok (c : case) : bool :=
   let '(es, st) := run c in
